@@ -17,32 +17,32 @@ def e1(profile, quick, thorough, chunks=2):
     return {
         "quick": [{"binary": "worldsim", "package": "worldsim", "profile": profile, "runs": quick, "chunks_per_job": chunks}],
         "thorough": [{"binary": "worldsim", "package": "worldsim", "profile": profile, "runs": thorough, "chunks_per_job": chunks}],
-        "timeout_s": {"quick": 900, "thorough": 3000},
+        "timeout_s": {"quick": 1200, "thorough": 7200},
     }
 
 
 PLAN = {
-    "C01": e1("C01", 160000, 3200000),
-    "C02": e1("C02", 160000, 3200000),
-    "C03": e1("C03", 160000, 3200000),
-    "C04": e1("C04", 160000, 3200000),
-    "C05": e1("C05", 160000, 3200000),
-    "C06": e1("C06", 160000, 3200000),
-    "C10": e1("C10", 160000, 3200000),
+    "C01": e1("C01", 160000, 1600000),
+    "C02": e1("C02", 160000, 1600000),
+    "C03": e1("C03", 160000, 1600000),
+    "C04": e1("C04", 160000, 1600000),
+    "C05": e1("C05", 160000, 1600000),
+    "C06": e1("C06", 160000, 1600000),
+    "C10": e1("C10", 160000, 1600000),
     "C11": e1("C11", 160, 2400, chunks=4),
-    "C13": e1("C13", 160000, 3200000),
-    "C15": e1("C15", 160000, 3200000),
-    "C16": e1("C16", 160000, 3200000),
+    "C13": e1("C13", 160000, 1600000),
+    "C15": e1("C15", 160000, 1600000),
+    "C16": e1("C16", 160000, 1600000),
     "C17": e1("C17", 1600, 24000, chunks=4),
 }
 
 # The 10-component registry (two identifier bytes, six padding bits) runs the same simulator.
-for _p, _q, _t in (("C01", 40000, 800000), ("C03", 40000, 800000), ("C05", 40000, 800000), ("C06", 40000, 800000), ("C13", 40000, 800000), ("C11", 40, 600), ("C17", 400, 6000)):
+for _p, _q, _t in (("C01", 40000, 400000), ("C03", 40000, 400000), ("C05", 40000, 400000), ("C06", 40000, 400000), ("C13", 40000, 400000), ("C11", 40, 600), ("C17", 400, 6000)):
     for _tier, _n in (("quick", _q), ("thorough", _t)):
         PLAN[_p][_tier] = PLAN[_p][_tier] + [{"binary": "worldsim10", "package": "worldsim10", "profile": _p, "runs": _n, "chunks_per_job": 2 if _p not in ("C11", "C17") else 4}]
 
 # The 8-component registry: exactly one identifier byte, no padding bits.
-for _p, _q, _t in (("C01", 30000, 600000), ("C06", 30000, 600000), ("C13", 30000, 600000), ("C11", 30, 400)):
+for _p, _q, _t in (("C01", 30000, 300000), ("C06", 30000, 300000), ("C13", 30000, 300000), ("C11", 30, 400)):
     for _tier, _n in (("quick", _q), ("thorough", _t)):
         PLAN[_p][_tier] = PLAN[_p][_tier] + [{"binary": "worldsim8", "package": "worldsim8", "profile": _p, "runs": _n, "chunks_per_job": 2 if _p != "C11" else 4}]
 
@@ -61,7 +61,7 @@ def e2(profile, quick_per_bin, thorough_per_bin):
     def jobs(n, bins):
         return [{"binary": b, "package": b, "profile": profile, "runs": n, "chunks_per_job": 1} for b in bins]
     return {"quick": jobs(quick_per_bin, SCHED_BINS), "thorough": jobs(thorough_per_bin, SCHED_BINS + SCHED_BINS_THOROUGH),
-            "timeout_s": {"quick": 900, "thorough": 3000}}
+            "timeout_s": {"quick": 1200, "thorough": 7200}}
 
 
 PLAN["C07"] = e2("C07", 10000, 200000)
@@ -72,7 +72,7 @@ PLAN["C09"] = {
              + [{"binary": b, "package": b, "profile": "C09", "runs": 2500, "chunks_per_job": 1} for b in SCHED_BINS],
     "thorough": [{"binary": "parsim", "package": "parsim", "profile": "C09", "runs": 3200000, "chunks_per_job": 2}]
                 + [{"binary": b, "package": b, "profile": "C09", "runs": 50000, "chunks_per_job": 1} for b in SCHED_BINS],
-    "timeout_s": {"quick": 900, "thorough": 3000},
+    "timeout_s": {"quick": 1200, "thorough": 7200},
 }
 # C17 also injects panics into system bodies and parallel items.
 for _t, _n_s, _n_p in (("quick", 1500, 30000), ("thorough", 30000, 600000)):
